@@ -20,6 +20,15 @@ CLAIMS = {
    note="Trusted: pyvc executor and NumPy models; gen.MAC as an abstract function in [0,1] of the two vectors (value: C18); havoc contracts of "
         "the identification kernels at run()'s call sites; step == 1 (columns = model orders) as in the property's quantifier.",
    design="6 (C10)", technique="contract-based deductive verification: AST->VC generation (pyvc) + z3, loop invariants, native replay"),
+ "C12": dict(
+   text="Deductive proof from the real source of ssi.build_hank, for symbolic channel/reference counts, block rows and record length: "
+        "block/channel layout ((br+1) x l rows, (br+1) x r columns as structured indices, no div/mod), every entry of the covariance "
+        "matrices is weight * sum of products Y[a, s+lag+t]*Yref[b, s+t] over one window with the single lag i+j+1 (cov_mm) / br+i-j with the "
+        "reference leading (cov_R), the weight being non-zero and independent of data, channel and summation index (hence bilinear, uniform); "
+        "for 'dat' the matrix is the pinned block of the transposed R factor of qr([Yp;Yf]^T) with the split exactly after the past-reference rows; "
+        "the raising paths. A function body that leaves the supported subset is checked by a bounded stand-in (labelled bounded, never counted as proved).",
+   note="Trusted: pyvc executor, NumPy models, lazy-sum calculus with its congruence lemma, qr as an uninterpreted kernel, the LQ projection lemma; reals for floats.",
+   design="6 (C12)", technique="contract-based deductive verification: AST->VC generation (pyvc) + z3 over structured block indices and lazy sums; bounded concrete stand-in only when the body is unsupported"),
 }
 NOT_APPLICABLE = {
  "C07": "accuracy tolerance (2.5 % / 15 %) of a floating-point FFT/peak-picking/regression pipeline: no contract over exact reals can state or discharge it (DESIGN.md section 8); its scale-invariance clause is covered under C08",
